@@ -58,6 +58,8 @@ class World(object):
         self.stalled = False
         self.sched = Sched(order, self)
         self.fired = set()
+        self.closed = set()
+        self.fds = []                    # descriptors handed out by mkstemp: closed by the harness after the run if the code did not
 
     def snapshot(self):
         def classify(path, w=None):
@@ -171,6 +173,8 @@ class OsProxy(object):
                 except OSError:
                     world.record(w, name, 'err')
                     raise
+                if name == 'close':
+                    world.closed.add(a[0])
                 world.record(w, name, 'ok')
                 return r
             return world.sched.step(w, run)
@@ -200,6 +204,7 @@ class TempfileProxy(object):
                     world.record(w, 'mkstemp', 'err')
                     raise
                 world.tempof[w] = name_
+                world.fds.append(fd)
                 world.record(w, 'mkstemp', 'ok')
                 return fd, name_
             return world.sched.step(w, run)
@@ -302,6 +307,13 @@ def run(scratch, kind, writers, faults, order, dest0, dir0, dry, texts, persiste
                 mod.py_compile = saved[2]
     after = listing()
     end = world.snapshot()
+    for fd in world.fds:
+        if fd in world.closed:
+            continue
+        try:
+            real_os.close(fd)
+        except OSError:
+            pass
     shutil.rmtree(d, ignore_errors=True)
     return {'kind': kind, 'writers': list(writers), 'faults': {w: faults.get(w, {'s': 'none', 'k': 'none'}) for w in writers},
             'dry': bool(dry), 'dest0': dest0, 'dir0': bool(dir0 or dest0 == 'old'), 'events': world.events,
